@@ -286,7 +286,8 @@ func c19SchedUnit(scope, tier string, part, parts int) core.Unit {
 				pairs = append(pairs, pair{i, j})
 			}
 		}
-		// always include the collision operations at the end of the menu against each other
+		// always include the operations beyond the limit (ecosystem-specific spellings, collision
+		// pairs) against each other; a shared value's first use racing with itself matters most
 		for i := limit; i < nOps; i++ {
 			for j := i; j < nOps; j++ {
 				pairs = append(pairs, pair{i, j})
